@@ -4,6 +4,10 @@
 
 package apk
 
+//@ func getSigBlock
+//@   property C02
+//@   ensures @directory_present_on_success ret2 == nil ==> ret0 != nil
+//@
 //@ func verify
 //@   property C02
 //@   ghost dirOfFile *zipslicer.Directory = nil
